@@ -35,8 +35,9 @@ type Obligation struct {
 	NameSensitive        []string `json:"name_sensitive,omitempty"`
 	Watch                []watch  `json:"-"`
 
-	Values map[string]string `json:"values,omitempty"` // witness values read from the model
-	PkgDir string            `json:"pkg_dir,omitempty"`
+	InBaseline bool              `json:"-"`
+	Values     map[string]string `json:"values,omitempty"` // witness values read from the model
+	PkgDir     string            `json:"pkg_dir,omitempty"`
 
 	// results
 	Status  string  `json:"status"` // discharged | failed | unknown | generr | covered | vacuous
@@ -84,11 +85,21 @@ func (x *Exec) obligeClause(fr *Frame, st *State, c *Clause, kind, anchor string
 		setup(env)
 	}
 	o := &Obligation{Kind: kind, Fn: x.fnKey, Anchor: anchor, Label: c.Label, Props: c.Props, Src: c.Src, Pos: x.pos(pos)}
-	goal, err := env.evalBool(c.E)
-	if err == nil && env.siteWhere != nil {
-		var w Term
-		w, err = env.evalBool(env.siteWhere)
-		goal = Implies(w, goal)
+	var goal Term
+	var err error
+	if env.siteWhere != nil {
+		w, werr := env.evalBool(env.siteWhere)
+		if werr != nil && env.siteOptional {
+			x.note("optional site's where clause not evaluable here; site skipped: " + werr.Error())
+			return
+		}
+		err = werr
+		if err == nil {
+			goal, err = env.evalBool(c.E)
+			goal = Implies(w, goal)
+		}
+	} else {
+		goal, err = env.evalBool(c.E)
 	}
 	if err != nil {
 		o.GenErr = err.Error()
@@ -142,6 +153,12 @@ func (x *Exec) exprTextAt(fr *Frame, pos token.Pos) string {
 
 // smtText renders the query for this obligation.
 func (o *Obligation) smtText(wantModel bool) string {
+	return o.smtTextOpt(wantModel, false)
+}
+
+// smtTextOpt renders the query; with dropQuant the quantified assumptions are left out (the
+// weaker query can only be used to look for candidate counterexamples, never to prove).
+func (o *Obligation) smtTextOpt(wantModel, dropQuant bool) string {
 	m := o.smt
 	var b strings.Builder
 	if wantModel {
@@ -166,6 +183,9 @@ func (o *Obligation) smtText(wantModel bool) string {
 		fmt.Fprintf(&b, "(assert (= (strlen %s) %d))\n", m.strlits[s], len(s))
 	}
 	for _, f := range m.facts[:o.nFacts] {
+		if dropQuant && (strings.Contains(f, "(forall ") || strings.Contains(f, "(exists ")) {
+			continue
+		}
 		b.WriteString("(assert " + f + ")\n")
 	}
 	b.WriteString("(assert " + o.PC + ")\n")
@@ -241,7 +261,7 @@ func discharge(obls []*Obligation, dir string, timeoutS int, workers int) {
 	// Undecided proof obligations are re-run one at a time with a longer budget: a timeout
 	// under sixteen-fold solver contention must not be mistaken for a failed proof.
 	for _, o := range obls {
-		if o.Status == "unknown" && !o.Cover {
+		if o.Status == "unknown" && !o.Cover && o.InBaseline {
 			first := o.Detail
 			o.Seconds = 0
 			dischargeOne(o, dir, timeoutS*4)
@@ -315,6 +335,37 @@ func dischargeOne(o *Obligation, dir string, timeoutS int) {
 		_ = i
 	}
 	o.Status = "unknown"
+	if !o.Cover && len(o.Watch) > 0 {
+		// No verdict. Look for a candidate counterexample in the query without its quantified
+		// assumptions; it counts only if it replays on the real code.
+		qf := strings.TrimSuffix(file, ".smt2") + ".candidate.smt2"
+		text := o.smtTextOpt(true, true)
+		for _, w := range o.Watch {
+			text += "(get-value (" + w.Term + "))\n"
+		}
+		if os.WriteFile(qf, []byte(text), 0o644) == nil {
+			res, dt, out := runSolver(solvers[0], qf, timeoutS)
+			o.Seconds += dt
+			details = append(details, fmt.Sprintf("candidate-search:%s(%.2fs)", res, dt))
+			if res == "sat" {
+				o.Status = "candidate"
+				o.Solver = solvers[0].name
+				o.Values = map[string]string{}
+				rest := out
+				if i := strings.Index(rest, "\n"); i >= 0 {
+					rest = rest[i+1:]
+				}
+				for _, w := range o.Watch {
+					val, r2, ok := nextGetValue(rest)
+					if !ok {
+						break
+					}
+					o.Values[w.Name] = val
+					rest = r2
+				}
+			}
+		}
+	}
 	if o.Cover {
 		// vacuity guard: what matters is that the path condition is not refuted
 		o.Status = "cover-inconclusive"
